@@ -235,7 +235,7 @@ class _ImmutableTaskList:
     @staticmethod
     def __get_task_attribute(t: 'Task', attribute_name: str):
         if attribute_name == 'parent_id':
-            return t.parent.id if t.parent else None
+            return t.parent.id if t.parent is not None else None
         if attribute_name == 'id':
             return t.id
         if attribute_name == 'estimate':
@@ -798,7 +798,7 @@ class Task:
         else:
             self.__parent = parent
             self._attach(parent.__wbs)
-            if parent and self not in parent.__children:
+            if self not in parent.__children:
                 parent.__children.append(self)
 
     @property
